@@ -434,6 +434,9 @@ def run(ctx):
     import c18
 
     ctx.include("C08.6", "prerequisite shared with C18.1: the desugaring passes every expression of a statement on (through the matching remover or unchanged) on every path - a statement whose right-hand side is an anonymous component call keeps its `<--` inputs", c18.rule_flow)
+    import c12
+
+    ctx.include("C08.8", "prerequisite shared with C12.2/C13.3: the lifting keeps every statement of an initialisation block and of a block, in source order (the statements a `signal x <-- e` declaration desugars to are nested in such blocks)", c12.rule_lifting, only=["statements-in-source-order", "statement-kept", "every-statement-visited"])
     rule_constraints(ctx)
     rule_constraint_lookup(ctx)
     rule_operator_chain(ctx)
